@@ -154,7 +154,9 @@ Definition WRep (W : world) (pa pb : list key) : Prop :=
   Rep (wmem (wa W)) (wfile (wa W)) pa /\ Rep (wmem (wb W)) (wfile (wb W)) pb.
 
 (* a cross-workspace copy is "fresh" when none of the copy's keys has a (stale) flat node in the target file and the
-   identifiers it draws are distinct from one another and from every identifier in use in the target *)
+   identifiers it draws (uuid4) are distinct from one another and from every identifier in use: entity and group
+   identifiers of the target tree, identifiers still registered as dead in the target (pending), and the entity and group
+   identifiers of the copied source subtree (which the copy keeps whenever they are free in the target) *)
 Definition wfresh_op (W : world) (o : wop) : bool :=
   match o with
   | On i o' => fresh_op (wsel i W) o'
@@ -163,21 +165,33 @@ Definition wfresh_op (W : world) (o : wop) : bool :=
       nodupN ids
       && forallb (fun j => negb (memN j (map snd (keys_of (wmem tgt))))) ids
       && forallb (fun j => negb (memN j (all_pg_ids (wmem tgt)))) ids
+      && forallb (fun j => negb (memN j (map snd (wpend tgt)))) ids
       && match find e (wmem src) with
          | Some te =>
-             match copy_x (map snd (keys_of (wmem tgt))) (all_pg_ids (wmem tgt)) te ids with
-             | Some (t', _, _, _) =>
-                 forallb (fun k => match fget k (flat (wfile tgt)) with Some _ => false | None => true end) (keys_of t')
-             | None => true
-             end
+             forallb (fun j => negb (memN j (map snd (keys_of te)))) ids
+             && forallb (fun j => negb (memN j (all_pg_ids te))) ids
+             && match copy_x (map snd (keys_of (wmem tgt))) (all_pg_ids (wmem tgt)) te ids with
+                | Some (t', _, _, _) =>
+                    forallb (fun k => match fget k (flat (wfile tgt)) with Some _ => false | None => true end) (keys_of t')
+                | None => true
+                end
          | None => true
          end
   end.
 Fixpoint wfresh_run (ops : list wop) (W : world) : bool :=
   match ops with [] => true | o :: r => wfresh_op W o && wfresh_run r (fst (wstep W o)) end.
 
+(* a cross-workspace copy forgets every dead registry entry of the target whose identifier is one of the copied source
+   identifiers (of any kind); [wclean_op] = there is no such entry, so nothing that may still have a flat node is forgotten *)
 Definition wclean_op (W : world) (o : wop) : bool :=
-  match o with On i o' => clean_op (wsel i W) o' | CopyX _ _ _ _ => true end.
+  match o with
+  | On i o' => clean_op (wsel i W) o'
+  | CopyX i e q ids =>
+      match find e (wmem (wsel i W)) with
+      | Some te => forallb (fun k => negb (memN (snd k) (map snd (keys_of te)))) (wpend (wsel (negb i) W))
+      | None => true
+      end
+  end.
 Fixpoint wclean_run (ops : list wop) (W : world) : bool :=
   match ops with [] => true | o :: r => wclean_op W o && wclean_run r (fst (wstep W o)) end.
 
@@ -197,4 +211,15 @@ Definition content_targets (w : ws) (o : op) : list key :=
   match o with
   | SetName e _ | SetDel e _ | SetArr e _ => [e]
   | _ => []
+  end.
+
+(* kinds nest as the API allows (can_hold): groups hold groups and objects and carry no property group; an object's
+   children are data leaves without property groups; data hold nothing — hypothesis of the shape theorems *)
+Definition leaf_data (c : tree) : Prop := fst (tkey c) = KD /\ apgs (tattrs c) = [] /\ tkids c = [].
+Fixpoint well_kinded (t : tree) : Prop :=
+  let 'Node k a l := t in
+  match fst k with
+  | KG => apgs a = [] /\ (fix all (l : list tree) : Prop := match l with [] => True | c :: r => well_kinded c /\ all r end) l
+  | KO => forall c, In c l -> leaf_data c
+  | KD => apgs a = [] /\ l = []
   end.
